@@ -32,5 +32,7 @@ pub(crate) use page_store::{
     PageTracker, SerializedSavepoint, ShrinkPolicy, TransactionalMemory,
 };
 pub use page_store::{InMemoryBackend, Savepoint};
+#[cfg(redb_verif)]
+pub use page_store::verif as page_store_verif;
 pub(crate) use table_tree::{PageListMut, TableTree, TableTreeMut};
 pub(crate) use table_tree_base::{InternalTableDefinition, TableType};
